@@ -219,12 +219,62 @@ var subLogoutRace = ev.Register("logout-vs-use",
 	})
 
 func TestLogoutVsUse(t *testing.T) {
-	subLogoutRace.CheckSalt(t, 29, ev.N(60, 3000), func(t *rapid.T) LogoutRace {
+	n := ev.N(60, 3000)
+	if ev.Race() && !ev.Thorough() {
+		n = 50 // the workload that puts a logout next to requests using the same session: not a quarter of it
+	}
+	subLogoutRace.CheckSalt(t, 29, n, func(t *rapid.T) LogoutRace {
 		return LogoutRace{
 			Clients:  rapid.IntRange(2, 12).Draw(t, "clients"),
 			Requests: rapid.IntRange(3, 20).Draw(t, "requests"),
 			AgeMs:    rapid.SampledFrom([]int64{2000, 60000, 300000, 599000, 601000, 3000000}).Draw(t, "age"),
 			LogoutUs: rapid.SampledFrom([]int{0, 200, 1000, 3000}).Draw(t, "logout"),
 		}
+	})
+}
+
+// ---------------------------------------------------------------- the session object under Destroy and GetSession at once
+
+type DestroyRace struct {
+	Readers int `json:"readers"`
+	Rounds  int `json:"rounds"`
+}
+
+var subDestroyRace = ev.Register("session-destroy-vs-get",
+	"20-200 rounds: a fresh session (a full hour to live, so no request extends it) is looked up by 2-6 goroutines in a tight loop through auth.GetSession while another goroutine destroys it (what logout does); oracle: once Destroy has returned the session is not found again; this is mainly a workload for the race detector (C15): every field of the shared session object is touched from both sides; non-trivial = always; distinct by case",
+	func(c DestroyRace, o *ev.Obs) *ev.Failure {
+		o.NonTrivial = true
+		for r := 0; r < c.Rounds; r++ {
+			s := auth.CreateSession(int64(1000 + r))
+			var wg sync.WaitGroup
+			start := make(chan struct{})
+			for i := 0; i < c.Readers; i++ {
+				wg.Add(1)
+				go func() {
+					defer wg.Done()
+					<-start
+					for k := 0; k < 30; k++ {
+						auth.GetSession(s.ID)
+					}
+				}()
+			}
+			wg.Add(1)
+			go func() {
+				defer wg.Done()
+				<-start
+				s.Destroy()
+			}()
+			close(start)
+			wg.Wait()
+			if _, ok := auth.GetSession(s.ID); ok {
+				return ev.Failf("auth.logged-out-session-live:object-level", "round %d: after Destroy() returned, GetSession still finds the session", r)
+			}
+		}
+		return nil
+	})
+
+func TestSessionDestroyVsGet(t *testing.T) {
+	subDestroyRace.CheckSalt(t, 31, ev.N(8, 200), func(t *rapid.T) DestroyRace {
+		return DestroyRace{Readers: rapid.IntRange(2, 6).Draw(t, "readers"), Rounds: rapid.IntRange(20, 200).Draw(t, "rounds")}
 	})
 }
